@@ -1,5 +1,262 @@
-/- Model for C11 (core Lean only, no Mathlib). -/
-import OdcGeo.Model.IO
+/-
+Model for C11 — `compute_output_geobox` (odc/geo/overlap.py:572-690), the `from_bbox` /
+`snap_grid` it ends in (geobox.py:496-589, math.py:39-78, 172-217), `norm_crs` utm / utm-n /
+utm-s arithmetic (crs.py:410-434) and `_pick_best_crs` (crs.py:482-501).  Core Lean only.
+
+Everything that comes out of pyproj is a parameter captured from the real run: the bounding
+box of the buffered, densified footprint in the destination CRS, whether the CRSs / their units
+are equal, the source resolution, the centre-pixel fit (`dst_.resolution`, `sx`, `sy`), the UTM
+CRS picked by the database query and the overlap fractions of the candidates.
+`from_bbox` / `snap_grid` are owned by C08; the small copy here is what this property needs
+(the C08 contract `snap_cover` / `snap_aligned` is re-proved for it in Lemmas/C11.lean).
+-/
+import OdcGeo.Model.Affine
 namespace OdcGeo.C11
+open OdcGeo
+
+def rabs (x : Rat) : Rat := if x < 0 then -x else x
+
+/-! ### math.py: `split_float`, `maybe_int`, `_snap_edge_pos`, `_snap_edge`, `snap_grid` -/
+
+/-- truncation toward zero (`x - fmod(x, 1.0)`) -/
+def truncR (x : Rat) : Int := if 0 ≤ x then x.floor else x.ceil
+
+/-- `split_float(x)` → `(whole, part)` -/
+def splitFloat (x : Rat) : Int × Rat :=
+  let w := truncR x
+  let p := x - (w : Rat)
+  if p > 1 / 2 then (w + 1, p - 1)
+  else if p < -(1 / 2) then (w - 1, p + 1)
+  else (w, p)
+
+/-- `maybe_int(x, tol)` (its value; Python returns an `int` in the first case) -/
+def maybeInt (x tol : Rat) : Rat :=
+  let wp := splitFloat x
+  if rabs wp.2 < tol then (wp.1 : Rat) else x
+
+/-- `_snap_edge_pos(x0, x1, res, tol)`; `assert res > 0`, `assert x1 >= x0` -/
+def snapEdgePos (x0 x1 res tol : Rat) : Res (Rat × Int) :=
+  if ¬ (0 < res) then .error .assertion
+  else if ¬ (x0 ≤ x1) then .error .assertion
+  else
+    let i0 := (maybeInt (x0 / res) tol).floor
+    let i1 := (maybeInt (x1 / res) tol).ceil
+    .ok ((i0 : Rat) * res, max 1 (i1 - i0))
+
+/-- `_snap_edge(x0, x1, res, tol)` -/
+def snapEdge (x0 x1 res tol : Rat) : Res (Rat × Int) :=
+  if ¬ (x0 ≤ x1) then .error .assertion
+  else if 0 < res then snapEdgePos x0 x1 res tol
+  else match snapEdgePos x0 x1 (-res) tol with
+    | .error e => .error e
+    | .ok (tx, n) => .ok (tx + (n : Rat) * (-res), n)
+
+/-- `snap_grid(x0, x1, res, off_pix, tol)` → `(tx, nx)`; `res = 0` divides by zero -/
+def snapGrid (x0 x1 res : Rat) (off : Option Rat) (tol : Rat) : Res (Rat × Int) :=
+  match off with
+  | some o =>
+    if ¬ (0 ≤ o ∧ o < 1) then .error .assertion
+    else
+      let d := o * rabs res
+      match snapEdge (x0 - d) (x1 - d) res tol with
+        | .error e => .error e
+        | .ok (tx, n) => .ok (tx + d, n)
+  | none =>
+    if res = 0 then .error .zeroDiv
+    else if 0 < res then .ok (x0, max 1 (maybeInt ((x1 - x0) / res) tol).ceil)
+    else .ok (x1, max (maybeInt ((x1 - x0) / (-res)) tol).ceil 1)
+
+/-! ### geobox.py: `_norm_anchor`, `GeoBox.from_bbox` -/
+
+inductive Anchor where
+  | dflt            -- the string "default"
+  | edge
+  | center
+  | floating
+  | xy (ax ay : Rat)
+  deriving DecidableEq, Repr
+
+/-- `_snap` of `from_bbox` after `_norm_anchor` and the `tight` override -/
+def snapOf (anchor : Anchor) (tight : Bool) : Option (Rat × Rat) :=
+  if tight then none
+  else match anchor with
+    | .dflt => some (0, 0)
+    | .edge => some (0, 0)
+    | .center => some (1 / 2, 1 / 2)
+    | .floating => none
+    | .xy ax ay => some (ax, ay)
+
+inductive ShapeReq where
+  | none
+  | side (n : Int)            -- a single integer: longest side
+  | exact (ny nx : Int)
+  deriving DecidableEq, Repr
+
+structure BBox where
+  left : Rat
+  bottom : Rat
+  right : Rat
+  top : Rat
+  deriving DecidableEq, Repr
+
+/-- result grid: shape `(ny, nx)` and affine -/
+structure Grid where
+  ny : Int
+  nx : Int
+  A : Aff
+  deriving DecidableEq, Repr
+
+/-- the resolution branch of `from_bbox` -/
+def fromBboxRes (b : BBox) (rx ry : Rat) (snap : Option (Rat × Rat)) (tol : Rat) : Res Grid := do
+  let (offx, nx) ← snapGrid b.left b.right rx (snap.map (·.1)) tol
+  let (offy, ny) ← snapGrid b.bottom b.top ry (snap.map (·.2)) tol
+  return ⟨ny, nx, Aff.translation offx offy * Aff.scale rx ry⟩
+
+/-- `GeoBox.from_bbox(bbox, crs, shape=…, resolution=…, tight=…, anchor=…, tol=…)`.
+`res`: resolution as `(rx, ry)` (a single number `r` is `(r, -r)`: `res_`). -/
+def fromBbox (b : BBox) (shape : ShapeReq) (res : Option (Rat × Rat)) (anchor : Anchor) (tight : Bool)
+    (tol : Rat) : Res Grid :=
+  let snap := snapOf anchor tight
+  let spanX := b.right - b.left
+  let spanY := b.top - b.bottom
+  -- integer shape: pixel size from the longer side, then the resolution branch
+  let (shape, res) : ShapeReq × Res (Option (Rat × Rat)) := match shape with
+    | .side n =>
+      if n = 0 then (.none, .error .zeroDiv)
+      else if spanY = 0 then (.none, .error .zeroDiv)   -- bbox.aspect
+      else
+        let r := if spanX / spanY > 1 then spanX / n else spanY / n
+        (.none, .ok (some (r, -r)))
+    | s => (s, .ok res)
+  match res with
+  | .error e => .error e
+  | .ok (some (rx, ry)) => fromBboxRes b rx ry snap tol
+  | .ok none =>
+    match shape with
+    | .exact ny nx =>
+      if nx = 0 ∨ ny = 0 then .error .zeroDiv
+      else
+        let rx := spanX / nx
+        let ry := -spanY / ny
+        match snap with
+        | none => .ok ⟨ny, nx, Aff.translation b.left b.top * Aff.scale rx ry⟩
+        | some (sx, sy) =>
+          match snapGrid b.left b.right rx (some sx) tol, snapGrid b.bottom b.top ry (some sy) tol with
+          | .ok (offx, _), .ok (offy, _) => .ok ⟨ny, nx, Aff.translation offx offy * Aff.scale rx ry⟩
+          | .error e, _ => .error e
+          | _, .error e => .error e
+    | _ => .error .valueError
+
+/-! ### overlap.py: `compute_output_geobox` -/
+
+inductive ResMode where
+  | auto
+  | same
+  | fit
+  | explicit (rx ry : Rat)
+  | badString
+  deriving DecidableEq, Repr
+
+inductive Rounding where
+  | none
+  | flag (b : Bool)
+  /-- a callable: its value on `avg_res` is captured -/
+  | custom (value : Rat)
+  deriving DecidableEq, Repr
+
+/-- Python `round(x, 0)`: nearest integer, ties to even -/
+def roundHalfEven (x : Rat) : Rat :=
+  let f := x.floor
+  let d := x - (f : Rat)
+  if d < 1 / 2 then (f : Rat)
+  else if d > 1 / 2 then ((f + 1 : Int) : Rat)
+  else if f % 2 = 0 then (f : Rat) else ((f + 1 : Int) : Rat)
+
+/-- the pyproj-derived inputs of one call -/
+structure Captured where
+  /-- `dst_crs == src_crs` -/
+  sameCrs : Bool
+  /-- `src_crs.units == dst_crs.units` -/
+  sameUnits : Bool
+  /-- `gbox.resolution` as `(x, y)` -/
+  srcRes : Rat × Rat
+  /-- bounding box of `gbox.footprint(crs, buffer=0.9, npoints=100)` -/
+  bbox : BBox
+  /-- `dst_.resolution` of the centre-pixel box, as `(x, y)` -/
+  cpRes : Rat × Rat
+  /-- `get_scale_at_point(...)` → `(sx, sy)` -/
+  fitScale : Rat × Rat
+  deriving DecidableEq, Repr
+
+inductive Out where
+  /-- the source GeoBox object itself is returned -/
+  | source
+  | grid (g : Grid)
+  deriving DecidableEq, Repr
+
+/-- the resolution handed to `from_bbox` (lines 633-680) -/
+def chooseRes (c : Captured) (mode : ResMode) (shape : ShapeReq) (rnd : Rounding) : Res (Option (Rat × Rat)) :=
+  if shape ≠ .none then .ok none
+  else match mode with
+    | .same => .ok (some c.srcRes)
+    | .auto => if c.sameUnits then .ok (some c.srcRes) else fit
+    | .fit => fit
+    | .badString => .error .valueError
+    | .explicit rx ry => .ok (some (rx, ry))
+where
+  fit : Res (Option (Rat × Rat)) :=
+    if c.fitScale.1 = 0 ∨ c.fitScale.2 = 0 then .error .zeroDiv
+    else
+      let avg := (rabs (c.cpRes.1 / c.fitScale.1) + rabs (c.cpRes.2 / c.fitScale.2)) / 2
+      let avg := match rnd with
+        | .none => avg
+        | .flag true => roundHalfEven avg
+        | .flag false => avg
+        | .custom v => v
+      .ok (some (avg, -avg))
+
+/-- `compute_output_geobox(gbox, crs, resolution=mode, shape=…, tight=…, anchor=…, tol=…,
+round_resolution=…)` for a `GeoBox` source -/
+def computeOutput (c : Captured) (mode : ResMode) (shape : ShapeReq) (tight : Bool) (anchor : Anchor)
+    (tol : Rat) (rnd : Rounding) : Res Out :=
+  if c.sameCrs ∧ (mode = .auto ∨ mode = .same) ∧ shape = .none ∧ anchor = .dflt then .ok .source
+  else match chooseRes c mode shape rnd with
+    | .error e => .error e
+    | .ok res => (fromBbox c.bbox shape res anchor tight tol).map Out.grid
+
+/-! ### crs.py: `norm_crs` utm / utm-n / utm-s, `_pick_best_crs` -/
+
+inductive UtmReq where
+  | utm
+  | utmN
+  | utmS
+  deriving DecidableEq, Repr
+
+/-- `norm_crs("utm" | "utm-n" | "utm-s", ctx)`: `epsg` and `south` (`utm_zone.endswith("S")`)
+describe the CRS returned by `CRS.utm(ctx)`; result = EPSG code -/
+def normUtm (req : UtmReq) (epsg : Int) (south : Bool) : Int :=
+  match req with
+  | .utm => epsg
+  | .utmN => if south then epsg - 100 else epsg
+  | .utmS => if !south then epsg + 100 else epsg
+
+/-- first maximum of a list of `(candidate, key)` — `sorted(key=…, reverse=True)[0]` (stable) -/
+def argmaxFirst : List (Nat × Rat) → Option (Nat × Rat)
+  | [] => none
+  | x :: xs => match argmaxFirst xs with
+    | none => some x
+    | some y => if x.2 < y.2 then some y else some x
+
+/-- `_pick_best_crs(poly, candidates)`; `cands` carry their overlap fraction with the polygon,
+`bigArea` = `poly.area > 1e-9` -/
+def pickBest (cands : List (Nat × Rat)) (bigArea : Bool) : Res Nat :=
+  match cands with
+  | [] => .error .valueError
+  | first :: rest =>
+    if rest ≠ [] ∧ bigArea then
+      match argmaxFirst cands with
+      | some c => .ok c.1
+      | none => .ok first.1
+    else .ok first.1
 
 end OdcGeo.C11
